@@ -89,8 +89,9 @@ class World:
                                     "thousand tons each month", "thousand tons each month"))
 
         # class-level unit conversions are not used by the builders, but Food needs them assigned
-        S.set_conversions(S.real("kcals_daily"), S.real("fat_daily"), S.real("protein_daily"), include_fat, include_protein,
-                          S.real("population"))
+        kd_, fd_, pd_, pop_ = S.real("kcals_daily"), S.real("fat_daily"), S.real("protein_daily"), S.real("population")
+        S.assume(sp.And(kd_ > 0, fd_ > 0, pd_ > 0, pop_ > 0))
+        S.set_conversions(kd_, fd_, pd_, include_fat, include_protein, pop_)
 
         waste = {}
         for w in ("STORED_FOOD_WASTE_RETAIL", "MEAT_WASTE_RETAIL", "CROP_WASTE_RETAIL", "SCP_RETAIL_WASTE",
@@ -223,6 +224,9 @@ def month_templates(repo, build, call, month_range=True, max_paths=200):
         conds = {}
         if outcome == "return":
             conds = extract_conditions(res)
+            sub = getattr(w, "subst", None)
+            if sub:
+                conds = {n_: z3.substitute(f_, *sub) for n_, f_ in conds.items()}
         pt = PathTemplate(list(ctx.pc), conds, outcome, detail=res if outcome == "raise" else None)
         pt.facts = list(ctx.facts)
         pt.quantified = list(ctx.quantified)
